@@ -21,10 +21,21 @@ Inductive op :=
   | ReWrite (pos : Z) (p : list Z).
 
 (* observable result of one call: status and data.
-   status: 0 ok, 900 panic, 901 io.EOF, 902 the Unread* error, 903 io.ErrShortWrite, 1000+e the caller's error e *)
+   status: 0 ok, 901 io.EOF, 902 the Unread* error, 903 io.ErrShortWrite, 1000+e the caller's error e;
+   a panic is classed by its value: 900 a runtime index / slice-bounds error, 904 ErrTooLarge, 905 Grow's
+   "negative count", 906 "truncation out of range", 907 errNegativeRead, 908 "invalid Write count" *)
 Definition obs := (Z * list Z)%type.
 Definition st_ok : Z := 0.
 Definition st_panic : Z := 900.
+Definition st_too_large : Z := 904.
+Definition st_neg_count : Z := 905.
+Definition st_trunc : Z := 906.
+Definition st_neg_read : Z := 907.
+Definition st_bad_write : Z := 908.
+(* the largest int, and the size beyond which make([]byte, n) certainly fails (runtime maxAlloc: 2^48 on
+   linux/amd64; a parameter of the model - the harness only generates sizes that are far on either side) *)
+Definition max_int : Z := 9223372036854775807.
+Definition max_alloc : Z := 281474976710656.
 Definition st_eof : Z := 901.
 Definition st_unread : Z := 902.
 Definition st_short : Z := 903.
@@ -54,6 +65,19 @@ Definition grow (b0 : buf) (n : nat) : buf * nat :=
     else                                                                            (* reallocate 2c+n *)
       ({| bytes := live b ++ zeros n; off := 0; lastr := lastr b; cap := 2 * c + n; isnil := false |}, m).
 
+(* grow(n) panics with ErrTooLarge instead of returning: after the reset-if-empty step (b is the buffer after it)
+   none of reslice / small allocation / slide applies and either the overflow guard `c > maxInt-c-n` fires or
+   makeSlice(2c+n) fails (its deferred recover turns the runtime panic of make into ErrTooLarge).
+   Everything is compared in Z: n may be far beyond anything a nat should hold. *)
+Definition reset_if_empty (b : buf) : buf :=
+  if Nat.eqb (blen b) 0 && negb (Nat.eqb (off b) 0) then reset b else b.
+Definition too_large (b : buf) (n : Z) : bool :=
+  let c := Z.of_nat (cap b) in
+  negb (n <=? Z.of_nat (cap b - length (bytes b)))%Z
+  && negb (isnil b && (n <=? Z.of_nat small_buffer_size)%Z)
+  && negb (n <=? Z.of_nat (cap b / 2 - blen b))%Z
+  && ((max_int - c - n <? c)%Z || (max_alloc <? 2 * c + n)%Z).
+
 (* Write, WriteByte, WriteString, WriteRune try the reslice FIRST and call grow only when it fails:
    an emptied buffer whose offset is not 0 is therefore NOT reset by a write that still fits *)
 Definition grow_for_write (b : buf) (n : nat) : buf * nat :=
@@ -74,7 +98,7 @@ Fixpoint read_from (b : buf) (sc : list (list Z * Z)) (n : Z) : buf * obs :=
   match sc with
   | [] => (b2, (st_ok, [n]))                                          (* (0, io.EOF): return n, nil *)
   | (chunk, e) :: sc' =>
-    if (e =? -1)%Z then (b2, (st_panic, []))                          (* m < 0: panic(errNegativeRead) *)
+    if (e =? -1)%Z then (b2, (st_neg_read, []))                       (* m < 0: panic(errNegativeRead) *)
     else
       let k := Nat.min (length chunk) (cap b2 - i) in                 (* the reader copies into buf[i:cap] *)
       let b3 := set_bytes b2 (bytes b2 ++ firstn k chunk) in
@@ -131,18 +155,19 @@ Definition step_gen (is_byte : Z -> bool) (b : buf) (o : op) : buf * obs :=
            (set_off b (off b + k) (if Nat.eqb k 0 then 0%Z else (-1)%Z), (st_ok, firstn k (live b)))
   | Truncate n =>
       if (n =? 0)%Z then (reset b, (st_ok, []))
-      else if (n <? 0)%Z || (zn (blen b) <? n)%Z then (set_last b 0%Z, (st_panic, []))
+      else if (n <? 0)%Z || (zn (blen b) <? n)%Z then (set_last b 0%Z, (st_trunc, []))
       else ({| bytes := firstn (off b + Z.to_nat n) (bytes b); off := off b; lastr := 0%Z; cap := cap b; isnil := isnil b |}, (st_ok, []))
   | Reset => (reset b, (st_ok, []))
   | Grow n =>
-      if (n <? 0)%Z then (b, (st_panic, []))
+      if (n <? 0)%Z then (b, (st_neg_count, []))
+      else if too_large (reset_if_empty b) n then (reset_if_empty b, (st_too_large, []))    (* panic(ErrTooLarge) inside grow *)
       else let '(b1, m) := grow b (Z.to_nat n) in (set_bytes b1 (firstn m (bytes b1)), (st_ok, []))
   | ReadFrom sc => read_from (set_last b 0%Z) sc 0%Z
   | WriteTo m e =>
       let b := set_last b 0%Z in
       let nb := blen b in
       if Nat.eqb nb 0 then (reset b, (st_ok, [0%Z]))                                       (* the writer is not called *)
-      else if (zn nb <? m)%Z then (b, (st_panic, (-1)%Z :: live b))                         (* invalid Write count *)
+      else if (zn nb <? m)%Z then (b, (st_bad_write, (-1)%Z :: live b))                     (* invalid Write count *)
       else
         let b' := set_off b (off b + Z.to_nat m) 0%Z in
         if negb (e =? 0)%Z then (b', (st_user e, m :: live b))
